@@ -1341,6 +1341,8 @@ func main() {
 			decisionFunc("channel/channel.go", "Channel.GetTimeout"))
 		fmt.Fprintf(&sw, "(* driver/generic/sendwithcallbacks.go Callback.check *)\nDefinition callback_check_code : list dstmt :=\n  %s.\n",
 			decisionFunc("driver/generic/sendwithcallbacks.go", "Callback.check"))
+		fmt.Fprintf(&sw, "(* transport/telnet.go Telnet.handleControlCharResponse *)\nDefinition telnet_handle_code : list dstmt :=\n  %s.\n",
+			decisionFunc("transport/telnet.go", "Telnet.handleControlCharResponse"))
 		sp := filepath.Join(filepath.Dir(*out), "GeneratedSkel.v")
 		olds, _ := os.ReadFile(sp)
 		if !bytes.Equal(olds, sw.Bytes()) {
